@@ -338,6 +338,10 @@ class SymKey(object):
     def psx_symbolic(self):
         return True
 
+    def psx_eq(self, other):
+        from .interp import current
+        return current().eq(self.s, other.s if isinstance(other, SymKey) else other)
+
     def __repr__(self):
         return "<SymKey>"
 
@@ -424,7 +428,16 @@ def dict_lookup(I, d, k, default, raise_):
 
 def iterate(I, o):
     """a Python iterable of the elements of o"""
-    if isinstance(o, (list, tuple, dict, str, range, bytes)):
+    if isinstance(o, dict):
+        if any(isinstance(k, SymKey) for k in o):
+            return [k.s if isinstance(k, SymKey) else k for k in o]      # interpreted code sees the key's text
+        return o
+    tn = type(o).__name__
+    if tn == "dict_keys":
+        return [k.s if isinstance(k, SymKey) else k for k in o]
+    if tn == "dict_items":
+        return [((k.s if isinstance(k, SymKey) else k), v) for k, v in o]
+    if isinstance(o, (list, tuple, str, range, bytes)):
         return o
     if isinstance(o, (set, frozenset)):
         return set_order(I, o)
@@ -594,6 +607,8 @@ def binop(I, op, l, r, inplace=False):
 
 def to_str(I, v):
     """str(v)"""
+    if isinstance(v, SymKey):
+        v = v.s
     if isinstance(v, (str, SymStr)):
         return v
     if isinstance(v, SymInt):
